@@ -21,6 +21,27 @@ static inline Bytes pat(size_t n, unsigned tag)
 // prior + 10: the same, and every getter of the object is called BETWEEN the two builder calls (an observation is an operation too:
 // whatever a getter remembers must not survive the next setData)
 static volatile uint64_t g_sink;
+// abort=n in a case: the builder call under test is first attempted with its n-th allocation failing (it ends with std::bad_alloc)
+// and then made again; everything demanded of the result is demanded all the same
+static int g_abortN = 0;
+static bool g_abortFired = false;
+#define C13_FINAL(call)                         \
+    do                                          \
+    {                                           \
+        if (g_abortN)                           \
+        {                                       \
+            mc::af::arm(g_abortN);              \
+            try                                 \
+            {                                   \
+                call;                           \
+            }                                   \
+            catch (const std::bad_alloc&)       \
+            {                                   \
+            }                                   \
+            g_abortFired = mc::af::disarm();    \
+        }                                       \
+        call;                                   \
+    } while (0)
 template <class T>
 static inline void touchData(const T& p)
 {
@@ -129,7 +150,7 @@ static void canLike(W& w, const char* cls, uint8_t pt, uint32_t fullType, int pr
         g_sink = p.getId() + p.getDlc() + p.getCrc() + p.getFlags() + p.getErrorPosition() + T::isValidPayload(p.getRawPayload(), p.getLength());
     }
     Bytes d = pat(len, 1);
-    p.setData(d.data(), (uint8_t) len);
+    C13_FINAL(p.setData(d.data(), (uint8_t) len));
     w.add(mc::C_TRANS, 2);
     std::string k = cls;
     if (p.getDataLength() != len)
@@ -194,7 +215,7 @@ static inline void lin(W& w, int prior, size_t len)
         g_sink = p.getLinId() + p.getChecksum() + p.getFlags() + T::isValidPayload(p.getRawPayload(), p.getLength());
     }
     Bytes d = pat(len, 2);
-    p.setData(d.data(), (uint8_t) len);
+    C13_FINAL(p.setData(d.data(), (uint8_t) len));
     w.add(mc::C_TRANS, 2);
     std::string k = "LinPayload";
     if (p.getDataLength() != len)
@@ -248,7 +269,7 @@ static inline void eth(W& w, int prior, size_t len)
         g_sink = p.getFlags() + T::isValidPayload(p.getRawPayload(), p.getLength());
     }
     Bytes d = pat(len, 3);
-    p.setData(d.data(), (uint16_t) len);
+    C13_FINAL(p.setData(d.data(), (uint16_t) len));
     w.add(mc::C_TRANS, 2);
     std::string k = "EthernetPayload";
     if (p.getDataLength() != len)
@@ -300,7 +321,7 @@ static inline void analog(W& w, int prior, size_t len, int dt)
     if (look)
         g_sink = p.getSamplesCount() + (uint64_t) (uintptr_t) p.getData() + p.getLength() + T::isValidPayload(p.getRawPayload(), p.getLength());
     Bytes d = pat(len, 4);
-    p.setData(d.data(), len);
+    C13_FINAL(p.setData(d.data(), len));
     w.add(mc::C_TRANS, 2);
     std::string k = "AnalogPayload";
     size_t ss = dt ? 4 : 2;
@@ -382,8 +403,8 @@ static inline void cm(W& w, int prior, const size_t slen[4], size_t vlen)
         at[i] = text.size();
         text += s[i] + "/&";
     }
-    p.setData(std::string_view(text.data() + at[0], s[0].size()), std::string_view(text.data() + at[1], s[1].size()), std::string_view(text.data() + at[2], s[2].size()),
-              std::string_view(text.data() + at[3], s[3].size()), v);
+    C13_FINAL(p.setData(std::string_view(text.data() + at[0], s[0].size()), std::string_view(text.data() + at[1], s[1].size()), std::string_view(text.data() + at[2], s[2].size()),
+                        std::string_view(text.data() + at[3], s[3].size()), v));
     w.add(mc::C_TRANS, 2);
     std::string k = "CaptureModulePayload";
     std::string_view got[4] = {p.getDeviceDescription(), p.getSerialNumber(), p.getHardwareVersion(), p.getSoftwareVersion()};
@@ -471,7 +492,7 @@ static inline void iface(W& w, int prior, size_t sc, size_t vlen)
         g_sink = p.getStreamIdsCount() + (uint64_t) (uintptr_t) p.getStreamIds() + p.getVendorDataLength() + (uint64_t) (uintptr_t) p.getVendorData() + p.getInterfaceId() +
                  T::isValidPayload(p.getRawPayload(), p.getLength());
     Bytes s = pat(sc, 5), v = pat(vlen, 6);
-    p.setData(s.data(), (uint16_t) sc, v.data(), (uint16_t) vlen);
+    C13_FINAL(p.setData(s.data(), (uint16_t) sc, v.data(), (uint16_t) vlen));
     w.add(mc::C_TRANS, 2);
     std::string k = "InterfacePayload";
     if (p.getStreamIdsCount() != sc || (sc && memcmp(p.getStreamIds(), s.data(), sc) != 0))
@@ -516,6 +537,9 @@ static inline void runCase(W& w, const std::string& cs)
 {
     auto kv = mc::kv_parse(cs);
     std::string cls = kv["cls"];
+    g_abortN = kv.count("abort") ? atoi(kv["abort"].c_str()) : 0;
+    g_abortFired = false;
+    struct Reset { ~Reset() { g_abortN = 0; } } reset;
     int prior = atoi(kv["prior"].c_str());
     size_t len = strtoull(kv["len"].c_str(), nullptr, 10);
     int hv = atoi(kv["hv"].c_str());
@@ -623,6 +647,45 @@ static int runC13(mc::Run& run, const mc::Options& opt)
             for (size_t len : {(size_t) 124, (size_t) 125, (size_t) 126, (size_t) 127, (size_t) 128, (size_t) 200, (size_t) 252, (size_t) 253, (size_t) 254, (size_t) 255, (size_t) 256,
                                (size_t) 382, (size_t) 383, (size_t) 384, (size_t) 32766, (size_t) 32767, (size_t) 32768})
                 cases.push_back(ofmt("cls=cmx;prior=%d;sec=%d;len=%zu", prior, sec, len));
+    // the builder call under test aborted by the failure of its n-th allocation (every n) and then repeated
+    {
+        std::vector<std::string> ab;
+        for (int prior : {0, 2, 12, 20, 22})
+        {
+            for (size_t len : {(size_t) 0, (size_t) 1, (size_t) 8, (size_t) 64, (size_t) 255})
+            {
+                ab.push_back(ofmt("cls=lin;prior=%d;len=%zu", prior, len));
+                ab.push_back(ofmt("cls=can;prior=%d;len=%zu;hv=0", prior, len));
+                ab.push_back(ofmt("cls=canfd;prior=%d;len=%zu;hv=1", prior, len));
+                ab.push_back(ofmt("cls=eth;prior=%d;len=%zu", prior, len * 6));
+                ab.push_back(ofmt("cls=analog;prior=%d;len=%zu;dt=%zu", prior, len * 4, len % 2));
+            }
+            for (const char* sl : {"0,0,0,0", "1,2,3,4", "3,0,4,1", "4,4,4,4"})
+                ab.push_back(ofmt("cls=cm;prior=%d;s=%s;v=%d", prior, sl, prior % 3));
+            for (size_t sc : {(size_t) 0, (size_t) 3, (size_t) 256})
+                for (size_t v : {(size_t) 0, (size_t) 3, (size_t) 255})
+                    ab.push_back(ofmt("cls=if;prior=%d;sc=%zu;v=%zu", prior, sc, v));
+        }
+        run.round("the builder call under test aborted by the failure of its n-th allocation (every n) and repeated: 5 prior states x lengths x 7 classes", ab.size(), [&, ab](W& w, uint64_t o) {
+            for (int n = 1; n < 60; ++n)
+            {
+                std::string cs = ab[o] + ofmt(";abort=%d", n);
+                {
+                    W probe;
+                    probe.single = true;
+                    c13::runCase(probe, cs);
+                    if (!c13::g_abortFired)
+                        break;
+                }
+                auto desc = [&] { return cs; };
+                if (!w.begin_case(desc))
+                    continue;
+                c13::runCase(w, cs);
+                w.add(mc::C_TRACES, 1);
+                w.add(mc::C_STATES, 2);
+            }
+        });
+    }
     const size_t chunk = 64;
     run.round("builder runs x prior contents", (cases.size() + chunk - 1) / chunk, [&](W& w, uint64_t o) {
         for (size_t i = o * chunk; i < std::min(cases.size(), (o + 1) * chunk); ++i)
